@@ -336,6 +336,8 @@ pub fn eval_c17(text: &str) -> Eval {
         );
     }
     let (sa, sb) = (sema_outcome(text, &mut ev), sema_outcome(&out, &mut ev));
+    let codes: Vec<&str> = sa.iter().map(|x| x.0.as_str()).collect();
+    ev.outcome = format!("{}|{}", ev.outcome, codes.join(","));
     if sa != sb {
         let lost = sa.iter().find(|x| !sb.contains(x));
         let gained = sb.iter().find(|x| !sa.contains(x));
